@@ -71,6 +71,8 @@ func GenesisFor(profile string, r *rand.Rand) GenesisCfg {
 		HouseParticipationFee: sdkmath.LegacyMustNewDecFromStr(pick(r, []string{"0", "0.1", "0.05", "0.013", "0.5"})),
 		MaxWithdrawalCount:    pick(r, []uint64{1, 2, 3}),
 	}
+	cfg.Subaccount.WagerEnabled = r.Intn(10) != 0
+	cfg.Subaccount.DepositEnabled = r.Intn(10) != 0
 	if profile == "mint" {
 		cfg.Mint = mintParamsFor(r)
 	} else {
@@ -336,8 +338,8 @@ func (g *Gen) genWithdraw() Op {
 	if g.chance(0.05) {
 		signer = g.user() // stranger without naming a depositor
 	}
-	if signer < 0 {
-		signer = g.user()
+	if signer < 0 || signer >= int64(len(g.c.Acc)) {
+		signer = g.user() // nobody can sign for a subaccount address
 	}
 	mode := int64(1)
 	amt := int64(0)
